@@ -21,6 +21,24 @@ fn next_key(rng: &mut Rng, k: usize, prev: &[u8; 32]) -> [u8; 32] {
 fn spec(files: &[u8], salt: &[u8; 16], key: &[u8; 32]) -> [u8; 20] { sha(&[key, &hmac_sha1(salt, files)]) }
 
 pub fn run(ctx: &mut Ctx) {
+    // the module's own generators (also judged by C15): with the random source replaced by a known tape they hand
+    // out exactly its next bytes - the value this property's functions are then fed with
+    {
+        use wow_srp::verif_hooks::rand as vr;
+        let mut r2 = ctx.rng("generators");
+        for k in 0..(if ctx.quick() { 200 } else { 5000 }) {
+            let tape = if k == 0 { vec![0xffu8; 32] } else if k == 1 { vec![0u8; 32] } else { r2.bytes(32) };
+            ctx.oracle_runs += 1;
+            vr::take_log(); vr::install_tape(&tape);
+            let r = catch(get_salt_value);
+            let left = vr::remove_tape().len(); vr::take_log();
+            match r {
+                Some(salt) if salt[..] == tape[0..16] && left == 16 => {}
+                other => ctx.fail("generators", format!("{{\"what\":\"get_salt_value does not hand out the next 16 bytes of the random source\",\"tape\":\"{}\",\"got\":{}}}", hex(&tape), jstr(&format!("{:?}", other)))),
+            }
+        }
+    }
+
     let mut rng = ctx.rng("corr");
     // SHA-1 / HMAC block boundaries, and page-like sizes (4096 and 8192: an implementation that feeds the
     // hasher in pages has its boundary cases there)
